@@ -193,7 +193,15 @@ def focused(tier):
     for opt in ("resume", "restart"):
         out.append(two_class_single("sched [2,0,1] %s 2 priorities" % opt, fam, K=2, T=11.0, prios=(1, 0), srvA=[3.0, 1.0], srvB=[2.0, 0.5],
                                     c={"sched": {"numbers": [2, 0, 1], "ends": [1.5, 2.5, 4.0], "preempt": opt}}, features=["schedule", "preempt_sched", "priorities"]))
+    # pre-emptive schedule upstream of a full node (blocked customers interrupted, released while off duty)
+    for opt in ("resume", "restart", "resample"):
+        for nums, ends in (([1, 0], [2.0, 3.0]), ([1, 0, 1], [2.0, 5.0, 6.0])):
+            out.append(tandem("sched %s %s + block" % (opt, nums), fam, c=({"sched": {"numbers": nums, "ends": ends, "preempt": opt}}, 1),
+                              caps=(None, 0), K=K, T=12.0, features=["schedule", "blocking", "preempt_sched"]))
     fam = "F-slotted"
+    for opt in ("resume", "restart", "resample"):
+        out.append(single("slotted [3, 2, 1] cap=True %s" % opt, fam, K=K, T=9.0, arr=[0.0, 0.5], srv=[4.0, 8.0, 0.5],
+                          c={"slotted": {"slots": [1.0, 2.0, 3.0], "sizes": [3, 2, 1], "capacitated": True, "preempt": opt}}, features=["slotted"]))
     for slots, sizes in (([1.0, 1.5, 3.0], [1, 2, 1]), ([1.0, 1.5, 3.0], [2, 0, 1])):
         for off in (0.0, 0.5):
             for cap, opt in ((False, False), (True, False), (True, "resume"), (True, "restart"), (True, "resample")):
